@@ -12,6 +12,7 @@
   the half of T2 that `Lemmas/UnifyTc.lean` leaves open, for this fragment.
 -/
 import RotoV.Model.TcInfer
+import RotoV.Model.TcInferSem
 import RotoV.Lemmas.UnifyTc
 import RotoV.Lemmas.Typing
 
@@ -33,35 +34,6 @@ def WTl : List MTy → Bool
   | [] => true
   | t :: ts => WT t && WTl ts
 end
-
-def ityOf : Nat → ITy
-  | 0 => .u8 | 1 => .u16 | 2 => .u32 | 3 => .u64 | 4 => .i8 | 5 => .i16 | 6 => .i32 | _ => .i64
-
-/-- the declarative type a type name stands for -/
-def denName (n : Nat) (args : List Ty) : Ty :=
-  if n < 8 then .int (ityOf n) else if n == 8 then .f32 else if n == 9 then .f64
-  else if n == 10 then .bool else if n == 11 then .string
-  else if n == 12 then .opt (args.headD .unit) else if n == 13 then .list (args.headD .unit)
-  else if n == 14 then .verdict (args.headD .unit) ((args.drop 1).headD .unit)
-  else if n < 32 then .prim (n - 15) else .named (n - 32)
-
-abbrev Val := Nat → Ty
-
-mutual
-def den (σ : Val) : MTy → Ty
-  | .var n | .intVar n _ | .floatVar n | .recordVar n _ => σ n
-  | .unit => .unit
-  | .never => .never
-  | .name n args => denName n (denL σ args)
-  | _ => .unit
-def denL (σ : Val) : List MTy → List Ty
-  | [] => []
-  | t :: ts => den σ t :: denL σ ts
-end
-
-def isGInt : Ty → Bool | .int _ => true | _ => false
-def isGSigned : Ty → Bool | .int t => t.signed | _ => false
-def isGFloat : Ty → Bool | .f32 | .f64 => true | _ => false
 
 /-- a slot holding a literal variable has a value of that kind -/
 def KindOk (σ : Val) (i : Nat) : MTy → Prop
